@@ -387,6 +387,8 @@ func (c18) Generate(r *rand.Rand, t string) []*Case {
 
 	out = append(out, c18GennamesStub(r, t)...) // stream gennames-stub (c18_gennames.go)
 
+	out = append(out, c18OpOrderCases(r, t)...) // stream op-order (below; enumeration in c06_hist.go)
+
 	if t != "thorough" {
 		return out
 	}
@@ -529,6 +531,294 @@ func c18RedundantAlias() []*Case {
 	return out
 }
 
+// ---- stream op-order: hint / Anon operations before, between and after the renders -------
+//
+// The enumeration of c06_hist.go (which see) with a standard-library SUBJECT:
+//
+//	std          every importable package of GOROOT/src in turn (round-robin over the plans, so
+//	             each package is the subject of several histories), nothing competing
+//	std-collide  every ordered pair of every collision group in turn (math/rand and crypto/rand,
+//	             text/template and html/template, ...): the other member is referenced first
+//	std+user     a user path whose last element is the package's name is referenced first
+//
+// The operations tell the truth about a std package's name (ImportName / ImportNames give the
+// name of the package clause: a File told a WRONG name for a std path is outside the property);
+// ImportAlias gives an arbitrary alias or, every other time, the redundant one (the real name).
+//
+// Oracle (c18HistOracle): EVERY File.Render of the history is judged on its own against its own
+// import block, and every fragment against the File's import table read right after it: a std
+// path imported without alias is referred to by the name of its package clause and by nothing
+// else (in particular not by a bare identifier); one imported under an alias by that alias; one
+// imported as "." by bare identifiers; one imported as "_" not at all; no two imports bind one name.
+// NonTrivial: the subject has a package clause under GOROOT/src (always, by construction).
+func c18OpOrderCases(r *rand.Rand, t string) []*Case {
+	var out []*Case
+	thorough := t == "thorough"
+	pkgs := StdPackages()
+	byPath := map[string]StdPkg{}
+	for _, sp := range pkgs {
+		byPath[sp.Path] = sp
+	}
+	var pairs [][2]string
+	groups := collisionGroups()
+	var keys []string
+	for k := range groups {
+		keys = append(keys, k)
+	}
+	sort.Strings(keys)
+	for _, k := range keys {
+		for _, a := range groups[k] {
+			for _, b := range groups[k] {
+				if a != b {
+					pairs = append(pairs, [2]string{a, b})
+				}
+			}
+		}
+	}
+	opFor := func(pl *opOrderPlan, kind string, k int) hist.Op {
+		p := pl.Paths[0]
+		real := byPath[p].Name
+		switch kind {
+		case "dot":
+			return hist.Op{Kind: "importalias", F: 0, A: p, B: "."}
+		case "name":
+			return hist.Op{Kind: "importname", F: 0, A: p, B: real}
+		case "alias":
+			if (len(out)+k)%2 == 0 {
+				return hist.Op{Kind: "importalias", F: 0, A: p, B: real} // redundant alias
+			}
+			return hist.Op{Kind: "importalias", F: 0, A: p, B: []string{"zz", "yy", "ww"}[k%3]}
+		case "names":
+			return hist.Op{Kind: "importnames", F: 0, Pairs: [][2]string{{p, real}}}
+		}
+		return hist.Op{Kind: "anon", F: 0, Strs: []string{p}}
+	}
+	type variant struct {
+		prefix  bool
+		renders int
+	}
+	variants := []variant{{false, 3}}
+	if thorough {
+		variants = []variant{{false, 3}, {true, 3}, {false, 4}, {true, 4}}
+	}
+	ctr := 0 // round-robin position, shared by all kinds and variants
+	for _, v := range variants {
+		v := v
+		for _, kind := range []string{"std", "std-collide", "std+user"} {
+			kind := kind
+			mk := func(n int) *opOrderPlan {
+				ctr++
+				pl := &opOrderPlan{Kind: kind}
+				prefix := v.prefix
+				if !thorough {
+					prefix = n%2 == 1
+				}
+				switch kind {
+				case "std":
+					pl.Paths = []string{pkgs[ctr%len(pkgs)].Path}
+				case "std-collide":
+					pr := pairs[ctr%len(pairs)]
+					pl.Paths = []string{pr[0], pr[1]}
+					pl.Early = []int{1}
+				default:
+					sp := pkgs[ctr%len(pkgs)]
+					pl.Paths = []string{sp.Path, "example.com/u/" + sp.Name}
+					pl.Early = []int{1}
+				}
+				pl.Ctor = hist.History{{Kind: "newfile", F: 0, A: "p"}}
+				if prefix {
+					pl.Ctor = append(pl.Ctor, hist.Op{Kind: "prefix", F: 0, A: "pkg"})
+				}
+				pl.Tags = append(pl.Tags, "prefix="+onoff(prefix))
+				if !byPath[pl.Paths[0]].Default {
+					pl.Tags = append(pl.Tags, "config=other-build-settings")
+				}
+				return pl
+			}
+			for _, pl := range opOrderSpace(r, opOrderKinds, v.renders, thorough, mk, opFor) {
+				h, measured := pl.history(r)
+				tags := append(append([]string{fmt.Sprintf("renders=%d", pl.Renders)}, pl.Tags...), measured...)
+				sort.Strings(tags)
+				out = append(out, &Case{Hist: h, Stream: "op-order", NonTrivial: true, Tags: tags,
+					Meta: map[string]interface{}{"paths": pl.Paths}})
+			}
+		}
+	}
+	return out
+}
+
+// c18HistOracle: see the stream's comment.  References are the V<i>_<j> identifiers of RefBody.
+func c18HistOracle(c *Case, got []hist.Obs) string {
+	paths, _ := c.Meta["paths"].([]string)
+	rc := &RefCase{Paths: paths}
+	told := map[string]map[string]bool{} // every name an ImportName(s) ever gave a path
+	tell := func(p, n string) {
+		if told[p] == nil {
+			told[p] = map[string]bool{}
+		}
+		told[p][n] = true
+	}
+	// judge: the references of one output (qm) against the imports in force for it
+	type imp struct {
+		alias string // "" = none written
+	}
+	judge := func(what string, qm map[string]string, imps map[string]imp, out string) string {
+		scope := map[string]string{}
+		for _, p := range sortedKeys(func() map[string]bool {
+			m := map[string]bool{}
+			for p := range imps {
+				m[p] = true
+			}
+			return m
+		}()) {
+			im := imps[p]
+			var provides []string
+			switch {
+			case im.alias == "_" || im.alias == ".":
+			case im.alias != "":
+				provides = []string{im.alias}
+			default:
+				if n, ok := GorootName(p); ok {
+					provides = []string{n}
+				} else {
+					provides = sortedKeys(told[p])
+				}
+			}
+			for _, n := range provides {
+				if q, clash := scope[n]; clash && q != p {
+					return fmt.Sprintf("%s: imports %q and %q both bind the name %s\n%q", what, q, p, n, out)
+				}
+				scope[n] = p
+			}
+		}
+		for _, p := range sortedKeys(c08Keys(qm)) {
+			q := qm[p]
+			real, std := GorootName(p)
+			desc := fmt.Sprintf("path %q", p)
+			if std {
+				desc = fmt.Sprintf("standard-library path %q (package clause in GOROOT/src: %s)", p, real)
+			}
+			ref := q + ".X"
+			if q == "" {
+				ref = "a bare identifier"
+			}
+			im, ok := imps[p]
+			switch {
+			case !ok:
+				return fmt.Sprintf("%s: %s is referred to by %s but not imported\n%q", what, desc, ref, out)
+			case im.alias == "_":
+				return fmt.Sprintf("%s: %s is imported as _ but referred to by %s\n%q", what, desc, ref, out)
+			case im.alias == ".":
+				if q != "" {
+					return fmt.Sprintf("%s: %s is imported as . but referred to by %s\n%q", what, desc, ref, out)
+				}
+			case im.alias != "":
+				if q != im.alias {
+					return fmt.Sprintf("%s: %s is imported with the alias %s but referred to by %s\n%q", what, desc, im.alias, ref, out)
+				}
+			case std:
+				if q != real {
+					return fmt.Sprintf("%s: %s is imported without alias but is not referred to by its real name: it is written as %s\n%q", what, desc, ref, out)
+				}
+			default:
+				if !told[p][q] || q == "" {
+					return fmt.Sprintf("%s: %s is imported without alias and referred to by %s, a name nothing has told\n%q", what, desc, ref, out)
+				}
+			}
+		}
+		return ""
+	}
+	oi, nout := 0, 0
+	var fragQM map[string]string
+	fragOp, fragOut := 0, ""
+	for i, op := range c.Hist {
+		switch op.Kind {
+		case "importname":
+			tell(op.A, op.B)
+		case "importnames":
+			for _, kv := range op.Pairs {
+				tell(kv[0], kv[1])
+			}
+		case "imports":
+			if oi >= len(got) {
+				return fmt.Sprintf("operation %d (imports) has no observation", i)
+			}
+			o := got[oi]
+			oi++
+			if o.Kind != "imports" {
+				return fmt.Sprintf("operation %d (imports): unexpected observation %s", i, o)
+			}
+			if fragQM != nil {
+				imps := map[string]imp{}
+				for _, im := range o.Imports {
+					if im.Alias {
+						imps[im.Path] = imp{alias: im.Name}
+					} else {
+						imps[im.Path] = imp{}
+						// without alias the table's own name is what a later import line relies on: it
+						// must be the real one
+						if real, std := GorootName(im.Path); std && im.Name != real {
+							return fmt.Sprintf("operation %d: the File's import table registers standard-library path %q without alias under the name %s (package clause: %s)", i, im.Path, im.Name, real)
+						}
+					}
+				}
+				if m := judge(fmt.Sprintf("fragment rendered with the File (operation %d) against the File's import table", fragOp), fragQM, imps, fragOut); m != "" {
+					return m
+				}
+				fragQM = nil
+			}
+		case "render", "rcode":
+			if oi >= len(got) {
+				return fmt.Sprintf("operation %d (%s) has no observation", i, op.Kind)
+			}
+			o := got[oi]
+			oi++
+			nout++
+			if o.Kind != "write" || o.Failed {
+				return fmt.Sprintf("output %d (operation %d, %s) was not rendered: %s", nout, i, op.Kind, o.String())
+			}
+			src := o.Out
+			if op.Kind == "rcode" {
+				var err error
+				if src, err = c08Wrap(o.Out); err != nil {
+					return fmt.Sprintf("operation %d (rcode): output does not parse: %v\n%q", i, err, o.Out)
+				}
+			}
+			qm, err := rc.QualifierMap(src)
+			if err != nil {
+				return fmt.Sprintf("output %d (operation %d, %s): %v\n%q", nout, i, op.Kind, err, o.Out)
+			}
+			if op.Kind == "rcode" {
+				fragQM, fragOp, fragOut = qm, i, o.Out
+				continue
+			}
+			fragQM = nil
+			pf, err := parser.ParseFile(token.NewFileSet(), "x.go", o.Out, parser.ImportsOnly)
+			if err != nil {
+				return fmt.Sprintf("output %d (operation %d): does not parse: %v", nout, i, err)
+			}
+			specs, err := parseImports(pf)
+			if err != nil {
+				return err.Error()
+			}
+			imps := map[string]imp{}
+			for _, sp := range specs {
+				if _, dup := imps[sp.path]; dup {
+					return fmt.Sprintf("output %d (operation %d): path %q is imported twice\n%q", nout, i, sp.path, o.Out)
+				}
+				imps[sp.path] = imp{alias: sp.name}
+			}
+			if m := judge(fmt.Sprintf("output %d (operation %d, File.Render after %d earlier output(s))", nout, i, nout-1), qm, imps, o.Out); m != "" {
+				return m
+			}
+		}
+	}
+	if nout == 0 {
+		return "the history produced no render observation"
+	}
+	return ""
+}
+
 func (c18) Compare(c *Case, exp, got []hist.Obs) string {
 	if c.Stream == "gennames-stub" {
 		return c18StubCompare(c, exp, got) // c18_gennames.go
@@ -539,6 +829,9 @@ func (c18) Compare(c *Case, exp, got []hist.Obs) string {
 func (c18) Oracle(c *Case, got []hist.Obs) string {
 	if c.Stream == "gennames-stub" {
 		return c18StubOracle(c, got) // c18_gennames.go
+	}
+	if c.Stream == "op-order" {
+		return c18HistOracle(c, got)
 	}
 	if m, ok := c.Meta["fail"].(string); ok {
 		return m
